@@ -119,6 +119,121 @@ def kernel_combo(args):
     return (lz, lo), n_ob, bad, t_solver
 
 
+def zero_kernel_slice():
+    """Statements of the `if 0 in timings.zero or 0 in timings.one:` branch itself (zero-width pulses)."""
+    import skoolkit.tape as T
+    node, src = func_ast(T.get_edges)
+    for n in ast.walk(node):
+        if isinstance(n, ast.If) and ast.unparse(n.test).replace(' ', '') == '0intimings.zeroor0intimings.one' and n.orelse:
+            return n.body
+    raise LookupError('zero-width data-pulse branch not found in get_edges')
+
+
+def zero_kernel_combo(args):
+    """One pattern of zero-width pulses: zmask / omask say which pulses of the 0-bit / 1-bit sequence are 0 (the others are
+    symbolic durations >= 1). Expected edges: every pulse toggles the level at its end; toggles that fall on the same instant
+    (they can only be separated by zero-width pulses) cancel in pairs, an odd number of them is one edge; the edge that
+    starts the block (the last one already in the list) takes part in this. A cancellation that is still pending when the
+    data ends is dropped (the code keeps no state beyond the data section): the last instant always stays an edge."""
+    zmask, omask = args
+    import skoolkit.tape as T
+    stmts = zero_kernel_slice()
+    W = poly.W
+    zero = tuple(0 if m else SV(z3.BitVec('z%d' % i, W), 1, 65535) for i, m in enumerate(zmask))
+    one = tuple(0 if m else SV(z3.BitVec('o%d' % i, W), 1, 65535) for i, m in enumerate(omask))
+    t0v = SV(z3.BitVec('t0', W), 0, 1 << 36)
+    n_ob = 0
+    bad = []
+    t_solver = 0.0
+
+    def pulses(vals, used):
+        out = []
+        for k, b in enumerate(vals):
+            nbits = 8 if k < len(vals) - 1 else used
+            for j in range(nbits):
+                out.extend(one if b & (0x80 >> j) else zero)
+        return out
+
+    def expected(vals, used):
+        times = [t0v]
+        counts = [1]
+        acc = t0v
+        for d in pulses(vals, used):
+            if isinstance(d, int) and d == 0:
+                counts[-1] += 1
+            else:
+                acc = acc + d
+                times.append(acc)
+                counts.append(1)
+        # (a cancellation still pending when the data ends has nothing to merge with: the last instant stays an edge)
+        return [t for i_, (t, c) in enumerate(zip(times, counts)) if c % 2 or i_ == len(times) - 1], acc
+
+    for used in range(1, 9):
+        for v in (0x00, 0x80, 0x7F, 0xFF, 0x55, 0xA5):
+            for lead in ((), (0xA5,)):
+                data = list(lead) + [v]
+                eng = Engine(inline_ok=lambda f: False)
+                res = {}
+
+                def start(e, data=data, used=used):
+                    timings = ObjModel(None, name='timings')
+                    timings.attrs.update({'zero': zero, 'one': one, 'used_bits': used})
+                    edges = SymList([t0v], 'edges')
+                    locs = {'timings': timings, 'data': list(data), 'tstates': t0v, 'edges': edges}
+                    e.run_stmts(T.get_edges, stmts, locs)
+                    res['edges'] = edges.items
+                    res['tstates'] = locs.get('tstates')
+                paths = eng.explore(start)
+                n_ob += 1
+                if len(paths) != 1 or paths[0].cut:
+                    bad.append(('forked', zmask, omask, used, data))
+                    continue
+                st = paths[0]
+                exp, acc = expected(data, used)
+                got = res['edges']
+                if len(got) != len(exp):
+                    bad.append(('edge_count', zmask, omask, used, data, len(got), len(exp)))
+                    continue
+                ok = True
+                for g, x in list(zip(got, exp)) + [(res['tstates'], acc)]:
+                    c = cmpop('==', g, x)
+                    if c is True:
+                        continue
+                    ts = time.time()
+                    status, backend, dt, model = discharge([], st.facts, st.pc, c)
+                    t_solver += time.time() - ts
+                    if status != 'proved':
+                        ok = False
+                        break
+                if not ok:
+                    bad.append(('edge_time', zmask, omask, used, data))
+    return (zmask, omask), n_ob, bad, t_solver
+
+
+def concrete_zero_kernel(zmask, omask, used, data):
+    """The same statement on the real get_edges with concrete durations (non-zero pulses 300, 500, 700, ...)."""
+    import skoolkit.tape as T
+    zero = tuple(0 if m else 300 + 200 * i for i, m in enumerate(zmask))
+    one = tuple(0 if m else 400 + 200 * i for i, m in enumerate(omask))
+    t = T.TapeBlockTimings(pulses=(), zero=zero, one=one, pause=0, used_bits=used, tail=0)
+    b = T.TapeBlock(1, list(data), t)
+    b.keys = None
+    edges, dbs = T.get_edges([b], 1000, 0)
+    times, counts, acc = [1000], [1], 1000
+    for k, byte in enumerate(data):
+        for j in range(8 if k < len(data) - 1 else used):
+            for d in (one if byte & (0x80 >> j) else zero):
+                if d == 0:
+                    counts[-1] += 1
+                else:
+                    acc += d
+                    times.append(acc)
+                    counts.append(1)
+    exp = [t_ for i_, (t_, c) in enumerate(zip(times, counts)) if c % 2 or i_ == len(times) - 1]
+    case = {'zero': list(zero), 'one': list(one), 'used_bits': used, 'data': list(data), 'zero_width': True}
+    return case, ([] if list(edges) == exp else [('edges', list(edges)[:12], exp[:12])])
+
+
 def concrete_kernel(lz, lo, used, data):
     """Replay on the real get_edges with concrete distinct durations."""
     import skoolkit.tape as T
@@ -388,7 +503,7 @@ def flag_consistency():
 def run(tier):
     rep = common.Report('C11', tier, 'other', './check C11 --tier %s' % tier)
     rep.trust('pyvc, z3 for the kernel VCs; CPython for the bounded parts')
-    rep.assume('kernel slice = the else-branch of `if 0 in timings.zero or 0 in timings.one:` in get_edges, located mechanically on every run; run with symbolic pulse durations in 1..65535 and symbolic start time')
+    rep.assume('kernel slices = both branches of `if 0 in timings.zero or 0 in timings.one:` in get_edges, located mechanically on every run; run with symbolic pulse durations in 1..65535 (or the literal 0 where the pattern says so) and symbolic start time')
     rep.assume('the list-building loops of get_edges as a whole (pilot tones, pauses, polarity, data-block indices) are outside the VC generator: bounded only')
     quick = tier == 'quick'
     combos = [(a, b) for a in range(1, 5) for b in range(1, 5)] if not quick else [(1, 1), (2, 2), (1, 2), (2, 1), (1, 3), (3, 2), (4, 4), (2, 4)]
@@ -419,6 +534,32 @@ def run(tier):
                 else:
                     rep.errors.append('kernel failure %s does not replay' % (b,))
     rep.exhaustive.append({'domain': 'pulse counts %s x used bits 1..8 x last byte 0..255 (durations symbolic)' % combos, 'size': sum(r[1] for r in res), 'visited': sum(r[1] for r in res), 'complete': True})
+    # the branch for bit-pulse sequences that contain zero-width pulses
+    import itertools
+    maxlen = 2 if quick else 3
+    zcombos = [(zm, om) for lz in range(1, maxlen + 1) for lo in range(1, maxlen + 1) for zm in itertools.product((0, 1), repeat=lz) for om in itertools.product((0, 1), repeat=lo) if any(zm) or any(om)]
+    fnz = 'skoolkit.tape.get_edges[data-pulse kernel, zero-width pulses]'
+    try:
+        with Pool(common.NCPU) as p:
+            resz = p.map(zero_kernel_combo, zcombos, chunksize=2)
+    except (poly.Refuse, LookupError, AssertionError) as ex:
+        rep.downgraded.append({'function': fnz, 'reason': str(ex)})
+        resz = []
+    seenz = set()
+    for (zm, om), n_ob, bad, ts in resz:
+        rep.add_bulk(n_ob - len(bad), 'z3' if ts else 'identical', ts, fnz, n=n_ob)
+        for b in bad:
+            key = 'C11/zero-kernel/%s' % b[0]
+            if key in seenz:
+                continue
+            seenz.add(key)
+            case, diffs = concrete_zero_kernel(b[1], b[2], b[3], b[4])
+            if diffs:
+                rep.violation(key, 'zero-width pulses %s/%s, %d used bits of %s: %s' % (case['zero'], case['one'], b[3], b[4], diffs[:1]), {'obligation': key, 'case': case, 'observed_vs_expected': diffs})
+            else:
+                rep.errors.append('zero-width kernel failure %s does not replay' % (b,))
+    rep.exhaustive.append({'domain': 'zero-width patterns of bit-pulse sequences up to length %d x used bits 1..8 x 6 last bytes x {no, one} leading byte (non-zero durations symbolic)' % maxlen,
+                           'size': sum(r[1] for r in resz), 'visited': sum(r[1] for r in resz), 'complete': False})
     check_constants(rep)
     check_pzx_puls(rep)
     nb_, badb = block_independence()
@@ -487,6 +628,13 @@ def replay(path):
         bad = [b for b in bad if b[0] == case['flag_byte']]
         print(bad)
         if bad:
+            print('VIOLATION property=C11 replay=%s' % path)
+            return 1
+        return 0
+    if isinstance(case, dict) and case.get('zero_width'):
+        c, d = concrete_zero_kernel([int(x == 0) for x in case['zero']], [int(x == 0) for x in case['one']], case['used_bits'], case['data'])
+        print(d)
+        if d:
             print('VIOLATION property=C11 replay=%s' % path)
             return 1
         return 0
